@@ -112,6 +112,167 @@ func (s *skelWriter) obj(o types.Object) string {
 	return fmt.Sprintf("(o %s %d %s %s %d %s %d %s %s)", kind, id, pk, sq(o.Name()), isMethod, recv, isAlias, otype, sq(imported))
 }
 
+
+// ---- rich type terms for method signatures (the @implements model) ----
+
+func (s *skelWriter) rty(t types.Type, depth int) string {
+	if t == nil {
+		return "(O \"nil\")"
+	}
+	if depth > 40 {
+		return "(O " + sq(t.String()) + ")"
+	}
+	switch u := t.(type) {
+	case *types.Basic:
+		kind := u.Name()
+		if int(u.Kind()) >= 0 && int(u.Kind()) < len(types.Typ) && types.Typ[u.Kind()] != nil {
+			kind = types.Typ[u.Kind()].Name()
+		}
+		return "(B " + sq(kind) + " " + sq(u.Name()) + ")"
+	case *types.Named:
+		if u.TypeArgs() != nil && u.TypeArgs().Len() > 0 {
+			return "(O " + sq(u.String()) + ")"
+		}
+		pk := "_"
+		if u.Obj().Pkg() != nil {
+			pk = sq(u.Obj().Pkg().Path())
+		}
+		return "(N " + pk + " " + sq(u.Obj().Name()) + ")"
+	case *types.Alias:
+		return "(A " + sq(u.String()) + " " + s.rty(u.Rhs(), depth+1) + ")"
+	case *types.Pointer:
+		return "(P " + s.rty(u.Elem(), depth+1) + ")"
+	case *types.Slice:
+		return "(S " + s.rty(u.Elem(), depth+1) + " " + sq(u.String()) + ")"
+	case *types.Array:
+		return fmt.Sprintf("(R %d %s %s)", u.Len(), s.rty(u.Elem(), depth+1), sq(u.String()))
+	case *types.Map:
+		return "(M " + s.rty(u.Key(), depth+1) + " " + s.rty(u.Elem(), depth+1) + " " + sq(u.String()) + ")"
+	case *types.Chan:
+		return fmt.Sprintf("(C %s %s %s)", sq(fmt.Sprint(int(u.Dir()))), s.rty(u.Elem(), depth+1), sq(u.String()))
+	case *types.Signature:
+		if u.TypeParams() != nil && u.TypeParams().Len() > 0 {
+			return "(O " + sq(u.String()) + ")"
+		}
+		return "(F " + s.rsig(u, depth+1) + " " + sq(u.String()) + ")"
+	case *types.Struct:
+		var b strings.Builder
+		b.WriteString("(T (")
+		for i := 0; i < u.NumFields(); i++ {
+			f := u.Field(i)
+			e := 0
+			if f.Embedded() {
+				e = 1
+			}
+			// the identity of a field name includes its package when it is not exported
+			nm := f.Name()
+			if !f.Exported() && f.Pkg() != nil {
+				nm = f.Pkg().Path() + "." + nm
+			}
+			fmt.Fprintf(&b, "(f %s %d %s %s)", sq(nm), e, s.rty(f.Type(), depth+1), sq(u.Tag(i)))
+		}
+		b.WriteString(") " + sq(u.String()) + ")")
+		return b.String()
+	case *types.Interface:
+		c := u.Complete()
+		if c.NumEmbeddeds() > 0 && !c.IsMethodSet() {
+			return "(O " + sq(u.String()) + ")"
+		}
+		var b strings.Builder
+		b.WriteString("(I (")
+		for i := 0; i < c.NumMethods(); i++ {
+			m := c.Method(i)
+			nm := m.Name()
+			if !m.Exported() && m.Pkg() != nil {
+				nm = m.Pkg().Path() + "." + nm
+			}
+			sg, _ := m.Type().(*types.Signature)
+			fmt.Fprintf(&b, "(m %s %s)", sq(nm), s.rty(sg, depth+1))
+		}
+		b.WriteString(") " + sq(u.String()) + ")")
+		return b.String()
+	}
+	return "(O " + sq(t.String()) + ")"
+}
+
+// (sig variadic (TY...) (TY...))
+func (s *skelWriter) rsig(sg *types.Signature, depth int) string {
+	var b strings.Builder
+	v := 0
+	if sg.Variadic() {
+		v = 1
+	}
+	fmt.Fprintf(&b, "(sig %d (", v)
+	for i := 0; sg.Params() != nil && i < sg.Params().Len(); i++ {
+		b.WriteString(s.rty(sg.Params().At(i).Type(), depth+1))
+	}
+	b.WriteString(") (")
+	for i := 0; sg.Results() != nil && i < sg.Results().Len(); i++ {
+		b.WriteString(s.rty(sg.Results().At(i).Type(), depth+1))
+	}
+	b.WriteString("))")
+	return b.String()
+}
+
+// the type table the @implements checker can see: every interface type name of the package and of its direct imports
+// (scope order), and the method set of *T for every defined non-generic type T of the package with, per method, whether
+// the method set of T has it.  Computed by go/types; no decisions here.
+func (s *skelWriter) writeTypeTable(pkg *types.Package) {
+	s.w.WriteString(" (types")
+	scan := append([]*types.Package{pkg}, pkg.Imports()...)
+	for _, p := range scan {
+		sc := p.Scope()
+		for _, name := range sc.Names() {
+			tn, ok := sc.Lookup(name).(*types.TypeName)
+			if !ok {
+				continue
+			}
+			iface, ok := tn.Type().Underlying().(*types.Interface)
+			if !ok {
+				continue
+			}
+			if nt, ok := tn.Type().(*types.Named); ok && nt.TypeParams() != nil && nt.TypeParams().Len() > 0 {
+				continue
+			}
+			iface = iface.Complete()
+			fmt.Fprintf(s.w, "\n (iface %s %s", sq(p.Path()), sq(name))
+			for i := 0; i < iface.NumMethods(); i++ {
+				m := iface.Method(i)
+				fmt.Fprintf(s.w, " (m %s %s)", sq(m.Name()), s.rsig(m.Type().(*types.Signature), 0))
+			}
+			s.w.WriteString(")")
+		}
+	}
+	sc := pkg.Scope()
+	for _, name := range sc.Names() {
+		tn, ok := sc.Lookup(name).(*types.TypeName)
+		if !ok {
+			continue
+		}
+		named, ok := tn.Type().(*types.Named)
+		if !ok {
+			continue
+		}
+		if named.TypeParams() != nil && named.TypeParams().Len() > 0 {
+			fmt.Fprintf(s.w, "\n (generic %s)", sq(name))
+			continue
+		}
+		ms := types.NewMethodSet(types.NewPointer(named))
+		vs := types.NewMethodSet(named)
+		fmt.Fprintf(s.w, "\n (tdecl %s", sq(name))
+		for i := 0; i < ms.Len(); i++ {
+			m := ms.At(i).Obj().(*types.Func)
+			inv := 0
+			if vs.Lookup(m.Pkg(), m.Name()) != nil {
+				inv = 1
+			}
+			fmt.Fprintf(s.w, " (m %s %s %d)", sq(m.Name()), s.rsig(m.Type().(*types.Signature), 0), inv)
+		}
+		s.w.WriteString(")")
+	}
+	s.w.WriteString(")")
+}
+
 type nodeAttrs struct {
 	kind             string
 	name, tok, str2  string
@@ -400,7 +561,22 @@ func cmdSkel(args []string) int {
 			}
 			w.WriteString("))")
 		}
-		w.WriteString("))\n")
+		w.WriteString(")")
+		// the type table is only needed when the package can carry an @implements annotation at all
+		hasImpl := false
+		for _, f := range p.Syntax {
+			for _, cg := range f.Comments {
+				for _, c := range cg.List {
+					if strings.Contains(c.Text, "@implements") {
+						hasImpl = true
+					}
+				}
+			}
+		}
+		if hasImpl {
+			s.writeTypeTable(p.Types)
+		}
+		w.WriteString(")\n")
 	}
 	return rc
 }
